@@ -322,10 +322,21 @@ def generate_integration(seed, prop, tier, index=0):
     regular = [st["name"] for st in mach["states"] if st["kind"] != "default"]
     for _ in range(rng.choice([0, 0, 1, 2, 3])):
         st = rng.choice(regular)
-        if rng.random() < 0.75:
+        r = rng.random()
+        if r < 0.55:
             add(f"{owner}.st.{st}", rng.randint(1, 8), ["smnext", rng.choice(regular)])
+        elif r < 0.8 and prop != "C15":
+            add(f"{owner}.st.{st}", rng.randint(1, 8), ["smnow", rng.choice(regular)])
         else:
             add(f"{owner}.st.{st}", rng.randint(1, 8), ["smdone"])
+    # the dashboard edits a duration of the embedded machine (while disabled, between periods, mid-run)
+    timed_states = [st for st in mach["states"] if st["kind"] == "timed"]
+    if timed_states and prop != "C15":
+        for _ in range(rng.choice([0, 0, 1, 2])):
+            st = rng.choice(timed_states)
+            v = sm_engine._dur_choices(dyadic, rng)
+            v = int(v) if isinstance(st["duration"], int) else float(round(v, 3) if not dyadic else v)
+            add(rng.choice(["wait", "wait", "robot.disabledPeriodic", "robot.robotPeriodic"]), rng.randint(1, cap), ["ntdur", owner, st["name"], v])
     # who calls engage()
     if prop in ("C01", "C02", "C03", "C04"):
         srcs = ["robot.teleopPeriodic"] + ([f"mode.{modes[0]['name']}.on_iteration"] if modes else [])
@@ -555,7 +566,14 @@ def build_sources(cfg):
                     L += [f"    def {h}(self):", f"        SIM.cb('{nm}.{h}')"] + (["        super().on_enable()"] if h == "on_enable" else [])
             L += ["    def on_disable(self):", f"        SIM.cb('{nm}.on_disable')", "        super().on_disable()",
                   f"        SIM.note('{nm}.post', [self.is_executing, self.current_state])",
-                  "    def execute(self):", f"        SIM.cb('{nm}.execute')", "        super().execute()",
+                  "    def execute(self):",
+                  "        if getattr(self, '_verif_nested', False):",
+                  "            return super().execute()      # re-entered through next_state_now(): not a framework call",
+                  "        self._verif_nested = True",
+                  "        try:",
+                  f"            SIM.cb('{nm}.execute')", "            super().execute()",
+                  "        finally:",
+                  "            self._verif_nested = False",
                   f"        SIM.note('{nm}.post', [self.is_executing, self.current_state])",
                   "    def done(self):", f"        SIM.note('{nm}.done')", "        super().done()"]
             L += _machine_states_source(nm, c["machine"], "sm")
@@ -725,6 +743,7 @@ class _Sim:
         self.booked = None
         self._pending = None
         self.boxes = {}
+        self.dur_pubs = {}
         self.struct_subs = {}
         self.cur_owner = None
         self.clobber_pubs = {}
@@ -783,8 +802,13 @@ class _Sim:
         w = self.world
         DS = w.wpilib.simulation.DriverStationSim
         do_raise = False
+        sm_acted = False      # one in-state action per state-function call: the first one listed counts
         for a in acts:
             k = a[0]
+            if k in ("smnext", "smnow", "smdone"):
+                if sm_acted:
+                    continue
+                sm_acted = True
             if k == "ds":
                 DS.setEnabled(bool(a[1]))
                 DS.setAutonomous(a[2] == "auto")
@@ -828,10 +852,18 @@ class _Sim:
                 comp = self.robot.__dict__.get(a[1]) if self.robot is not None else None
                 if comp is not None and hasattr(comp, "engage"):
                     comp.engage()
-            elif k == "smnext" and not at_wait:
+            elif k in ("smnext", "smnow") and not at_wait:
                 o = self.cur_owner
                 if o is not None and hasattr(type(o), str(a[1])) and a[1] != "dflt":
-                    o.next_state(a[1])
+                    if k == "smnext" or not hasattr(o, "next_state_now"):
+                        o.next_state(a[1])
+                    else:
+                        o.next_state_now(a[1])
+            elif k == "ntdur":
+                pub = self.dur_pubs.get((a[1], a[2]))
+                if pub is not None:
+                    pub.set(a[3])
+                    self.fault("dashboard_duration_write")
             elif k == "smdone" and not at_wait:
                 if self.cur_owner is not None:
                     self.cur_owner.done()
@@ -1092,6 +1124,18 @@ def execute(plan, trace=False):
             elif fb["hint"] == "trs":
                 from wpimath.geometry import Translation2d
                 sim.struct_subs[key] = (ntcore.StructArrayTopic(nt.getTopic(key), Translation2d).subscribe([]), "trs")
+    for c in cfg["components"]:
+        if c.get("machine"):
+            for st in c["machine"]["states"]:
+                if st["kind"] == "timed":
+                    t = nt.getTopic(f"/components/{c['name']}/state/{st['name']}_duration")
+                    sim.dur_pubs[(c["name"], st["name"])] = (ntcore.IntegerTopic(t) if isinstance(st["duration"], int) else ntcore.DoubleTopic(t)).publish()
+    for m in cfg["modes"]:
+        if m.get("kind") == "asm":
+            for st in m["machine"]["states"]:
+                if st["kind"] == "timed":
+                    t = nt.getTopic(f"/autonomous/{m['name']}/state/{st['name']}_duration")
+                    sim.dur_pubs[("mode." + m["name"], st["name"])] = (ntcore.IntegerTopic(t) if isinstance(st["duration"], int) else ntcore.DoubleTopic(t)).publish()
     DS.setDsAttached(True)
     DS.setEnabled(False)
     DS.setAutonomous(False)
